@@ -52,3 +52,4 @@ REG.ghost('events', List(EV_T))       # application-handler invocations, in orde
 REG.ghost('spawned', List(SP_T))      # background tasks started, in order
 REG.ghost('now', REAL)                # ghost clock (time.time())
 REG.ghost('reads', List(INT))         # sizes passed to wsgi.input.read
+REG.ghost('received', List(Ref('Packet')))   # packets handed to Socket.receive, in order
